@@ -3,8 +3,8 @@
 (* HTTPResponse.apply as a term-rewriting machine over handler programs.     *)
 (*                                                                           *)
 (* Out  ::= [t:"none"] | [t:"str", n, wide] | [t:"bytes", n] | [t:"int"]     *)
-(*        | [t:"list", items] | [t:"gen", items, closeable, id]              *)
-(*        | [t:"file", n, closeable, id]                                     *)
+(*        | [t:"list", items] | [t:"gen", items, closeable, closefail, id]   *)
+(*        | [t:"file", n, closeable, closefail, id]  (closefail: close() raises) *)
 (*        | [t:"resp", code, body] | [t:"err", code]                         *)
 (* Item ::= [t:"estr"] | [t:"ebytes"] | [t:"str", n, wide] | [t:"bytes", n]  *)
 (*        | [t:"int"] | [t:"raise"] | [t:"iresp", code, n] (yielded)         *)
@@ -41,8 +41,8 @@ Cast(out, code, env, fuel) ==
      ELSE [status |-> out.code, cl |-> -2, body |-> "errpage", n |-> 0, ret |-> [kind |-> "list"], crit |-> FALSE]      \* default page: str, CL = its length
   ELSE IF out.t = "resp" THEN Cast(out.body, out.code, env, fuel - 1)
   ELSE IF out.t = "file" THEN
-     IF env.fw THEN [status |-> code, cl |-> NoneI, body |-> "fixed", n |-> out.n, ret |-> [kind |-> "fw", id |-> out.id, closeable |-> out.closeable], crit |-> FALSE]
-     ELSE [status |-> code, cl |-> NoneI, body |-> "fixed", n |-> out.n, ret |-> [kind |-> "file", id |-> out.id, closeable |-> out.closeable], crit |-> FALSE]
+     IF env.fw THEN [status |-> code, cl |-> NoneI, body |-> "fixed", n |-> out.n, ret |-> [kind |-> "fw", id |-> out.id, closeable |-> out.closeable, closefail |-> out.closefail], crit |-> FALSE]
+     ELSE [status |-> code, cl |-> NoneI, body |-> "fixed", n |-> out.n, ret |-> [kind |-> "file", id |-> out.id, closeable |-> out.closeable, closefail |-> out.closefail], crit |-> FALSE]
   ELSE IF out.t = "int" THEN
      \* iter(int) raises TypeError -> first = HTTPError(500, 'Unhandled exception')
      Cast(ErrOut(500), code, env, fuel - 1)
@@ -54,7 +54,8 @@ Cast(out, code, env, fuel) ==
        ELSE IF f.t \in {"raise", "int"} THEN Cast(ErrOut(500), code, env, fuel - 1)
        ELSE [status |-> code, cl |-> NoneI, body |-> "fixed", n |-> SumBytes(out.items, fi),
              ret |-> [kind |-> IF out.t = "gen" THEN "iter" ELSE "chain", id |-> IF out.t = "gen" THEN out.id ELSE 0,
-                      closeable |-> out.t = "gen" /\ out.closeable], crit |-> FALSE]
+                      closeable |-> out.t = "gen" /\ out.closeable,
+                      closefail |-> out.t = "gen" /\ out.closefail], crit |-> FALSE]
 
 \* Ombott._handle: hooks, routing, handler -> the value handed to _cast, and the hook log
 BeforeRun(env) == IF env.failAt > 0 THEN env.failAt ELSE env.nb
@@ -78,7 +79,14 @@ Run(prog, env) ==
       hasClose == c.ret.kind \in {"iter", "file", "fw"} /\ c.ret.closeable     \* the object's own close(); wrappers forward it
       \* suppression closes it (if it has close) and returns []; otherwise the server closes what it got
       id == IF c.ret.kind \in {"iter", "file", "fw"} THEN c.ret.id ELSE 0
-  IN [status |-> c.status, cl |-> IF c.status = 304 THEN NoneI ELSE c.cl,      \* headerlist withholds Content-Length on 304
+      \* the suppression path calls close() BEFORE start_response: a close() that raises lands in the catch-all, whose
+      \* "critical error" page is then the one and only response
+      critClose == suppress /\ hasClose /\ c.ret.closefail
+  IN IF critClose THEN
+       [status |-> 500, cl |-> NoneI, body |-> "critical", sent |-> IF env.method = "HEAD" THEN 0 ELSE 50, sr |-> 1,
+        closedId |-> id, closed |-> 1, hooks |-> HookLog(env), crit |-> TRUE, failed |-> h.failed]
+     ELSE
+     [status |-> c.status, cl |-> IF c.status = 304 THEN NoneI ELSE c.cl,      \* headerlist withholds Content-Length on 304
       body |-> c.body,
       sent |-> IF suppress THEN 0 ELSE c.n,
       sr |-> 1,
